@@ -1393,6 +1393,13 @@ impl<R: BufRead> Reader<R> {
                 let (consumed, records_decoded) = self
                     .decoder
                     .decode_block(&self.block_data[self.block_cursor..], self.block_count)?;
+                if consumed == 0 && records_decoded == 0 {
+                    // No progress although the batch has room: the block holds more data than
+                    // its declared record count accounts for.
+                    return Err(AvroError::ParseError(
+                        "Avro block contains data beyond its declared record count".to_string(),
+                    ));
+                }
                 self.block_cursor += consumed;
                 self.block_count -= records_decoded;
             }
